@@ -236,6 +236,17 @@ class ExprMixin:
         if isinstance(c, bool):
             return self.ev(e.body if c else e.orelse, fr)
         if self.cur_pure():
+            if getattr(self, '_in_text', 0):
+                # contract text `A if c else B` with a symbolic c: an arm that speaks of something that does not exist on this
+                # path (the first event of a kind that never happened) does not hold — so the clause demands that c excludes it
+                def arm(x, g):
+                    try:
+                        return self.ev_under(x, fr, g)
+                    except PyRaise as ex_:
+                        if not getattr(ex_, 'implicit', False):
+                            raise
+                        return False
+                return self.ite(c, arm(e.body, c), arm(e.orelse, z3.Not(c)))
             return self.ite(c, self.ev_under(e.body, fr, c), self.ev_under(e.orelse, fr, z3.Not(c)))
         if self.path.branch(c):
             return self.ev(e.body, fr)
